@@ -1,6 +1,7 @@
 import Afkak.ClientNet
 import Afkak.Monitor.C11
 import AfkakProofs.Client.Net
+import AfkakProofs.Client.Timers
 import AfkakProps.Open.C11
 /-!
 # C11 — every broker request is bounded by the client timeout
@@ -8,6 +9,41 @@ Property theorems only; helper lemmas live in `AfkakProofs/Client/Net.lean`.
 -/
 namespace Afkak.Props.C11
 open Afkak.ClientNet Afkak.ClientCache Afkak.Consts
+
+/-- In every reachable state (any event sequence whatsoever) every unresolved request owns a pending
+    timer due at the bound it was armed with, the timer queue is in firing order, and request ids are
+    unique — so a request cannot stay unresolved past its bound without its timer having fired. -/
+theorem C11_bound (cfg : Cfg) (evs : List (Env × Ev)) :
+    let st := evs.foldl (fun s e => (step cfg s e.1 e.2).1) ({} : St)
+    (∀ q ∈ st.reqs, q.pending = true → ({ what := .mrtb q.k, due := q.due } : Timer) ∈ st.timers) ∧
+    st.timers.Pairwise (fun a b => a.due ≤ b.due) ∧
+    (∀ q ∈ st.reqs, ∀ q' ∈ st.reqs, q.k = q'.k → q = q') := by
+  have h := reachable_inv cfg evs
+  exact ⟨h.pendTimer, h.sorted, h.kUnique⟩
+
+/-- … and the clock never leaves a due timer behind: from a state in which nothing is overdue, any
+    step other than a clock advance keeps it so (timers are armed in the future), and a clock advance
+    fires everything that has become due, so that afterwards every pending timer — hence the bound of
+    every unresolved request — is strictly in the future (a step that exhausts the interpreter's fuel
+    reports it).  Together with `C11_bound`: every request is resolved no later than `issued + bound`. -/
+theorem C11_nothing_overdue (cfg : Cfg) (h0 : 0 ≤ cfg.timeout) (evs : List (Env × Ev)) (env : Env) :
+    let st := evs.foldl (fun s e => (step cfg s e.1 e.2).1) ({} : St)
+    (∀ e, (∀ dt, e ≠ .advance dt) → NotOverdue st → NotOverdue (step cfg st env e).1) ∧
+    (∀ dt, 0 ≤ dt →
+      (∀ t ∈ (step cfg st env (.advance dt)).1.timers, (step cfg st env (.advance dt)).1.now < t.due) ∨
+      Ob.badOp "fuel" ∈ (step cfg st env (.advance dt)).2) :=
+  ⟨fun e hne h => step_notOverdue cfg h0 _ env e hne h,
+   fun dt hdt => step_advance_exit cfg _ env dt hdt (reachable_inv cfg evs)⟩
+
+/-- The timer is released with its request: in every reachable state every pending request timer belongs
+    to an unresolved request (same due time) and no request has two timers — no timer survives the
+    reply, the cancel or the close that resolved its request. -/
+theorem C11_timer_released (cfg : Cfg) (evs : List (Env × Ev)) :
+    let st := evs.foldl (fun s e => (step cfg s e.1 e.2).1) ({} : St)
+    (∀ t ∈ st.timers, ∀ k, t.what = .mrtb k → ∃ q ∈ st.reqs, q.k = k ∧ q.pending = true ∧ q.due = t.due) ∧
+    (st.timers.filterMap mrtbOf).Nodup := by
+  have h := reachable_inv cfg evs
+  exact ⟨h.timerPend, h.names⟩
 
 /-- A request is armed, at issue, with a timer due at `issued + max(timeout, min_timeout)` (the plain
     client timeout when no minimum is given), and the bound is never below either of them — so a
@@ -87,6 +123,9 @@ example :
 end Afkak.Props.C11
 
 /- OBLIGATIONS
+C11_bound
+C11_nothing_overdue
+C11_timer_released
 C11_min_timeout
 C11_late_reply_discarded
 C11_disconnect_on_timeout
